@@ -780,6 +780,19 @@ func genC03(r *rand.Rand, n int, exhaustive bool, out func(J), next func() int) 
 		}
 		out(tag(run(Spec{Graphs: [][]string{ts[:h]}, Query: q2.text(), Pre: pre}, false), "sequence-insert", next()))
 	}
+	filterPairs(r, n/32, out, next)
+	// (3h'') fill, DROP GRAPH, CREATE GRAPH, INSERT, query with S and O bound and P free: a new graph must not answer from the old one
+	for i := 0; i < n/40; i++ {
+		ts := cycleData(r)
+		h := len(ts) / 2
+		a := splitTriple(ts[i%len(ts)])
+		q := query{clauses: []string{a.s + " ?p " + a.o}, optional: []bool{false}, from: 1}
+		if i%2 == 1 {
+			q = query{clauses: []string{`?x "p"@[] ?y`, `?x ?p ?y`}, optional: []bool{false, false}, from: 1}
+		}
+		pre := []string{q.text(), "DROP GRAPH ?g0;", "CREATE GRAPH ?g0;", insertStmt("?g0", ts[h:])}
+		out(tag(run(Spec{Graphs: [][]string{ts}, Query: q.text(), Pre: pre}, false), "sequence-drop", next()))
+	}
 	// (3i) the last clause binds nothing new and matches more than once (the triple in two FROM graphs, an interval matching
 	// two anchors), projected through aliases that carry the names of pattern bindings
 	for i := 0; i < n/16; i++ {
@@ -951,6 +964,7 @@ func genC10(r *rand.Rand, n int, exhaustive bool, out func(J), next func() int) 
 		}
 		out(tag(run(Spec{Graphs: roundRobin(ts, k, i%k), Query: q.text()}, false), "optional-windows", next()))
 	}
+	filterPairs(r, n/12, out, next)
 	// one sized case: 260 left rows, the OPTIONAL clause shares an anchor binding; the same instant in two zones on the two sides
 	{
 		var ts []string
@@ -1037,6 +1051,46 @@ func orderData(r *rand.Rand) []string {
 		ts = append(ts, fmt.Sprintf("/u<m%d>\t\"f\"@[2016-02-01T00:00:00%sZ]\t/u<z%d>", i%3, f, i))
 	}
 	return ts
+}
+
+// filterPairs: the same statement without and with a FILTER on a predicate / object binding of one NON-optional clause. The
+// filter applies to that clause only, so the filtered result is the unfiltered one restricted to rows whose value of the
+// binding is a temporal (immutable) predicate - whatever other clauses, OPTIONAL or not, follow.
+func filterPairs(r *rand.Rand, n int, out func(J), next func() int) {
+	shapes := []struct {
+		cl  []string
+		opt []bool
+		b   string
+	}{
+		{[]string{`?s ?p ?c`, `?c "q"@[] ?k`}, []bool{false, true}, "?p"},
+		{[]string{`?s ?p ?c`, `?c ?p2 ?k`}, []bool{false, true}, "?p"},
+		{[]string{`?s ?p ?c`, `?c ?p2 ?k`}, []bool{false, false}, "?p"},
+		{[]string{`?s ?p ?o`, `?s "p"@[] ?z`}, []bool{false, true}, "?p"},
+		{[]string{`?s "r"@[] ?o`, `?s ?p2 ?z`}, []bool{false, true}, "?o"},
+		{[]string{`?s ?p ?o`, `?s ?p2 ?o2`, `?o2 "q"@[?t] ?w`}, []bool{false, false, true}, "?o"},
+		{[]string{`?a "p"@[] ?s`, `?s ?p ?c`, `?c "r"@[] ?k`}, []bool{false, false, true}, "?p"},
+	}
+	for i := 0; i < n; i++ {
+		gs := graphsFor(r, 1+i%2, 10+r.Intn(12))
+		sh := shapes[i%len(shapes)]
+		fn := []string{"isTemporal", "isImmutable"}[(i/len(shapes))%2]
+		q := query{clauses: sh.cl, optional: sh.opt, from: len(gs)}
+		qf := q
+		qf.clauses = append(append([]string{}, sh.cl...), "FILTER "+fn+"("+sh.b+")")
+		qf.optional = append(append([]bool{}, sh.opt...), false)
+		// the projection is the same explicit list for both
+		q.proj = strings.Join(bindingsOf(strings.Join(sh.cl, " . ")), ", ")
+		qf.proj = q.proj
+		pair := next()
+		for role, qq := range []query{q, qf} {
+			o := tag(run(Spec{Graphs: gs, Query: qq.text()}, false), "filter-pair", next())
+			o["pair"] = pair
+			o["role"] = []string{"plain", "filtered"}[role]
+			o["filter_fn"] = fn
+			o["filter_binding"] = sh.b
+			out(o)
+		}
+	}
 }
 
 // insertStmt writes triples (tab separated texts) as an INSERT statement into graph g
